@@ -130,6 +130,14 @@ func dirty(rv reflect.Value, g *valgen.GT) {
 		dirty(v, g.Elems[1])
 		m.SetMapIndex(k, v)
 		rv.Set(m)
+	case "array":
+		for i := 0; i < rv.Len(); i++ {
+			dirty(rv.Index(i), g.Elems[0])
+		}
+	case "struct", "ustruct":
+		for i := 0; i < rv.NumField(); i++ {
+			dirty(rv.Field(i), g.Elems[i])
+		}
 	}
 }
 
@@ -344,8 +352,16 @@ func (g *gen) destFor(t *typeDesc, key bool) *valgen.GT {
 			e = gt("nstring") // []interface{} is the tuple target
 		}
 		d = gt("slice", e)
-		if r.Intn(8) == 0 {
+		switch r.Intn(8) {
+		case 0:
 			return gt("ptr", d)
+		case 1:
+			if !key && g.inplace {
+				// `*[n]T`: the elements are unmarshalled in place; the column's values mostly carry n elements
+				n := r.Intn(4)
+				g.count[t] = n
+				return &valgen.GT{Name: "array", N: n, Elems: []*valgen.GT{e}}
+			}
 		}
 		return d
 	case 'm':
@@ -359,7 +375,32 @@ func (g *gen) destFor(t *typeDesc, key bool) *valgen.GT {
 		}
 		return d
 	case 'u':
-		return gt("umap")
+		if !g.inplace {
+			return gt("umap")
+		}
+		switch k := r.Intn(10); {
+		case k < 4:
+			return gt("umap")
+		case k < 9:
+			// a struct with cql tags: a permutation of a subset of the UDT's fields, sometimes a field the UDT lacks
+			d = &valgen.GT{Name: "ustruct"}
+			p := r.Intn(len(t.sub))
+			for i := range t.sub {
+				j := (p + i) % len(t.sub)
+				if r.Intn(5) == 0 {
+					continue
+				}
+				d.Names = append(d.Names, string(t.fnames[j]))
+				d.Elems = append(d.Elems, g.destFor(t.sub[j], false))
+			}
+			if r.Intn(4) == 0 || len(d.Elems) == 0 {
+				d.Names = append(d.Names, "zz")
+				d.Elems = append(d.Elems, pickGT(r, gt("string"), gk("int"), gt("bytes")))
+			}
+			return d
+		}
+		// a struct without tags: every field of the value is read and skipped
+		return gt("struct", pickGT(r, gt("string"), gk("int")), gt("bytes"))
 	}
 	return gt("bytes")
 }
@@ -496,6 +537,9 @@ func (g *gen) encVal(proto int, t *typeDesc) []byte {
 		return r.Bytes(1 + r.Intn(4))
 	case 'l', 's':
 		n := r.Intn(4)
+		if c, ok := g.count[t]; ok && r.Intn(6) != 0 {
+			n = c
+		}
 		b := g.collSize(proto, n)
 		for i := 0; i < n; i++ {
 			b = append(b, g.collItem(proto, t.sub[0], true)...)
@@ -593,7 +637,17 @@ func sensitive(s slot, it optBytes) bool {
 	return s.g.Name == "bytes" && s.t.kind == 'n' && isTextID(s.t.id) && !it.null && len(it.b) == 0
 }
 
+// inplace: a destination whose parts Unmarshal fills in place (`*[n]T`, a struct): model-vs-code
+func inplace(g *valgen.GT) bool {
+	return g.Name == "array" || g.Name == "struct" || g.Name == "ustruct"
+}
+
 func reuseClass(api, init string, slots []slot, cols []colSpec, rows [][]cell) (op, class string) {
+	for _, s := range slots {
+		if inplace(s.g) {
+			return "reusex", "reuse/" + api + "/inplace-composite"
+		}
+	}
 	nav := false // a null after a value in some destination
 	last := make([]bool, len(slots))
 	for _, row := range rows {
@@ -627,6 +681,8 @@ func (x *runner) reuseOps(v int, mult int) {
 			m.mode = 'C'
 		}
 		ncols := 1 + g.r.Intn(4)
+		g.inplace = g.r.Intn(5) == 0
+		g.count = map[*typeDesc]int{}
 		var slots []slot
 		for i := 0; i < ncols; i++ {
 			c := colSpec{name: []byte("c" + strconv.Itoa(i)), t: g.reuseType(2, true)}
@@ -659,5 +715,138 @@ func (x *runner) reuseOps(v int, mult int) {
 		}
 		x.emit(fmt.Sprintf("%s %s %s %d D %d %s %s %s", op, api, init, v, len(slots), strings.Join(dt, " "),
 			strings.Join(r.toks(), " "), vh.Hex(r.encFrame())), class)
+	}
+}
+
+// ---- the systematic part: every listed destination kind x fixed orders of value / null / empty cells
+
+type sysCase struct {
+	t     *typeDesc
+	dests [][]*valgen.GT // alternatives; one Go type per destination slot of the column
+}
+
+func one(l ...*valgen.GT) [][]*valgen.GT {
+	r := make([][]*valgen.GT, len(l))
+	for i, g := range l {
+		r[i] = []*valgen.GT{g}
+	}
+	return r
+}
+
+func list(kind byte, e *typeDesc) *typeDesc { return &typeDesc{kind: kind, sub: []*typeDesc{e}} }
+
+func sysCases() []sysCase {
+	ptr := func(g *valgen.GT) *valgen.GT { return gt("ptr", g) }
+	udt := &typeDesc{kind: 'u', ks: []byte("ks"), nm: []byte("u"), fnames: [][]byte{[]byte("a"), []byte("b"), []byte("c")},
+		sub: []*typeDesc{nat(idInt), nat(idVarchar), nat(idBlob)}}
+	return []sysCase{
+		{nat(idBlob), one(gt("bytes"), gt("nbytes"), gt("string"), gt("nstring"), ptr(gt("bytes")), ptr(gt("string")), gt("iface"))},
+		{nat(idVarchar), one(gt("bytes"), gt("string"), gt("nstring"), ptr(gt("string")), ptr(ptr(gt("string"))))},
+		{nat(idAscii), one(gt("bytes"), gt("string"))},
+		{nat(idText), one(gt("bytes"), gt("string"))},
+		{nat(idInt), one(gk("int"), gk("int64"), gk("int32"), gk("uint32"), gnk("int"), ptr(gk("int")), gt("big"), gt("string"))},
+		{nat(idBigint), one(gk("int64"), gk("int"), gk("uint64"), ptr(gk("int64")), gt("big"))},
+		{nat(idCounter), one(gk("int64"))},
+		{nat(idSmallint), one(gk("int16"), gk("int"))},
+		{nat(idTinyint), one(gk("int8"), gk("int"))},
+		{nat(idVarint), one(gt("big"), gk("int64"), ptr(gt("big")))},
+		{nat(idBoolean), one(gt("bool"), gt("nbool"), ptr(gt("bool")))},
+		{nat(idFloat), one(gt("f32"), ptr(gt("f32")))},
+		{nat(idDouble), one(gt("f64"), ptr(gt("f64")))},
+		{nat(idDecimal), one(gt("dec"), ptr(gt("dec")))},
+		{nat(idTimestamp), one(gt("time"), ptr(gt("time")), gk("int64"))},
+		{nat(idDate), one(gt("time"))},
+		{nat(idTime), one(gt("dur"), gk("int64"))},
+		{nat(idDuration), one(gt("cdur"), ptr(gt("cdur")))},
+		{nat(idUUID), one(gt("uuid"), gt("a16"), gt("string"), gt("bytes"), ptr(gt("uuid")))},
+		{nat(idTimeUUID), one(gt("uuid"), gt("string"), gt("bytes"))},
+		{nat(idInet), one(gt("ip"), gt("string"), ptr(gt("ip")))},
+		{list('l', nat(idVarchar)), one(gt("slice", gt("string")), gt("slice", gt("bytes")), ptr(gt("slice", gt("string"))), gt("slice", ptr(gt("string"))),
+			&valgen.GT{Name: "array", N: 2, Elems: []*valgen.GT{gt("string")}}, &valgen.GT{Name: "array", N: 2, Elems: []*valgen.GT{gt("bytes")}})},
+		{list('s', nat(idInt)), one(gt("slice", gk("int")), gt("slice", ptr(gk("int"))), &valgen.GT{Name: "array", N: 2, Elems: []*valgen.GT{gk("int")}})},
+		{list('l', list('l', nat(idBlob))), one(gt("slice", gt("slice", gt("bytes"))))},
+		{&typeDesc{kind: 'm', sub: []*typeDesc{nat(idVarchar), nat(idInt)}}, one(gt("map", gt("string"), gk("int")), ptr(gt("map", gt("string"), gk("int"))),
+			gt("map", gt("nstring"), ptr(gk("int"))))},
+		{&typeDesc{kind: 'm', sub: []*typeDesc{nat(idInt), list('l', nat(idBlob))}}, one(gt("map", gk("int"), gt("slice", gt("bytes"))))},
+		{&typeDesc{kind: 't', sub: []*typeDesc{nat(idBlob), nat(idInt), nat(idVarchar)}}, [][]*valgen.GT{
+			{gt("bytes"), gk("int"), gt("string")}, {ptr(gt("bytes")), ptr(gk("int")), ptr(gt("string"))}, {gt("nbytes"), gk("int64"), gt("bytes")}}},
+		{&typeDesc{kind: 't', sub: []*typeDesc{list('l', nat(idVarchar)), nat(idUUID)}}, [][]*valgen.GT{
+			{gt("slice", gt("string")), gt("uuid")}, {gt("slice", gt("bytes")), gt("bytes")}}},
+		{udt, one(gt("umap"),
+			&valgen.GT{Name: "ustruct", Names: []string{"a", "b", "c"}, Elems: []*valgen.GT{gk("int"), gt("string"), gt("bytes")}},
+			&valgen.GT{Name: "ustruct", Names: []string{"c", "a"}, Elems: []*valgen.GT{gt("bytes"), ptr(gk("int"))}},
+			&valgen.GT{Name: "ustruct", Names: []string{"b", "zz"}, Elems: []*valgen.GT{gt("string"), gk("int")}},
+			gt("struct", gt("string"), gk("int")))},
+	}
+}
+
+var sysPatterns = []string{"VNVEN", "NVNV", "EVEN", "VVNNV", "VEVN"}
+
+// sysCell: pattern letter V (a value), N (null), E (empty)
+func (g *gen) sysCell(proto int, t *typeDesc, k byte, i int) cell {
+	item := func(e *typeDesc) optBytes {
+		switch k {
+		case 'N':
+			return optBytes{null: true}
+		case 'E':
+			return optBytes{b: []byte{}}
+		}
+		return optBytes{b: g.encVal(proto, e)}
+	}
+	if t.kind == 't' {
+		if k == 'N' && i%2 == 0 {
+			return cell{kind: 'z'}
+		}
+		c := cell{kind: 't'}
+		for _, e := range t.sub {
+			c.fields = append(c.fields, item(e))
+		}
+		return c
+	}
+	f := item(t)
+	if f.null {
+		return cell{kind: 'z'}
+	}
+	return cell{kind: 'b', b: f.b}
+}
+
+func (x *runner) reuseSystematic(v int) {
+	g := x.g
+	g.count = map[*typeDesc]int{}
+	for _, sc := range sysCases() {
+		for _, ds := range sc.dests {
+			for pi, pat := range sysPatterns {
+				for ai, api := range []string{"scan", "scanner"} {
+					init := "Z"
+					if (pi+ai)%2 == 1 {
+						init = "D"
+					}
+					if ds[0].Name == "array" {
+						g.count[sc.t] = ds[0].N
+					}
+					m := &meta{mode: 'G', ks: []byte("ks"), tb: []byte("t"), cols: []colSpec{{name: []byte("c"), t: sc.t}}}
+					b := &body{kind: "RES", rk: "ROWS", m: m}
+					for i := 0; i < len(pat); i++ {
+						b.rows = append(b.rows, []cell{g.sysCell(v, sc.t, pat[i], i)})
+					}
+					var slots []slot
+					if sc.t.kind == 't' {
+						for j, e := range sc.t.sub {
+							slots = append(slots, slot{e, ds[j]})
+						}
+					} else {
+						slots = []slot{{sc.t, ds[0]}}
+					}
+					r := &lresp{v: v, stream: 1, body: b}
+					op, class := reuseClass(api, init, slots, m.cols, b.rows)
+					var dt []string
+					for _, s := range slots {
+						dt = append(dt, s.g.String())
+					}
+					x.emit(fmt.Sprintf("%s %s %s %d D %d %s %s %s", op, api, init, v, len(slots), strings.Join(dt, " "),
+						strings.Join(r.toks(), " "), vh.Hex(r.encFrame())), "sys/"+class)
+				}
+			}
+		}
 	}
 }
